@@ -42,6 +42,10 @@ def tasks(tier):
         ("partition 3d", "run_partition", dict(dim=3)),
         ("loadcases 2d", "run_loadcases", dict(dim=2)),
         ("loadcases 3d", "run_loadcases", dict(dim=3)),
+        # the point without cells carries the lowest id: its unknowns of the scalar field are in range for any numbering rule
+        ("partition 2d, cell-less point first", "run_partition", dict(dim=2, orphan="first")),
+        ("partition 3d, cell-less point first", "run_partition", dict(dim=3, orphan="first")),
+        ("loadcases 2d, cell-less point first", "run_loadcases", dict(dim=2, orphan="first")),
     ]
 
 
@@ -49,11 +53,14 @@ def tasks(tier):
 class LatticeMesh:
     """points on the lattice {0, 1/2, 1}^dim plus one point without cells (coordinates 2, 2, 2)"""
 
-    def __init__(self, dim):
+    def __init__(self, dim, orphan="last"):
         self.dim = dim
         vals = [Fraction(0), Fraction(1, 2), Fraction(1)]
         pts = [list(p) for p in itertools.product(vals, repeat=dim)]
-        pts.append([Fraction(2)] * dim)
+        if orphan == "first":
+            pts.insert(0, [Fraction(2)] * dim)
+        else:
+            pts.append([Fraction(2)] * dim)
         self.coords = pts
         self.points = npmodel.array(pts, dtype=npmodel.DType("float"))
         self.npoints = len(pts)
@@ -61,10 +68,15 @@ class LatticeMesh:
         n = self.npoints - 1
         half = n // 2 + 1
         self.cells = np.array([list(range(half)), list(range(n - half, n))])
+        self.orphan = n
+        self.points_with_cells = np.arange(n)
+        if orphan == "first":
+            self.cells = self.cells + 1
+            self.orphan = 0
+            self.points_with_cells = np.arange(1, n + 1)
         self.ncells = 2
         self.ndof = self.npoints * dim
-        self.points_without_cells = np.array([n])
-        self.points_with_cells = np.arange(n)
+        self.points_without_cells = np.array([self.orphan])
         self.cell_type = "fake"
 
 
@@ -75,15 +87,15 @@ class LatticeRegion:
         self.h = None
 
 
-def make_container(it, dim, mixed=True):
-    mesh = LatticeMesh(dim)
+def make_container(it, dim, mixed=True, orphan="last"):
+    mesh = LatticeMesh(dim, orphan)
     reg = LatticeRegion(mesh)
     F = it.get("felupe.field._base:Field")
     f0 = it.call(F, [reg], dict(dim=dim))
     it.setattr(f0, "values", symarray("U", (mesh.npoints, dim)))
     fields = [f0]
     if mixed:
-        dmesh = LatticeMesh(dim)
+        dmesh = LatticeMesh(dim, orphan)
         dreg = LatticeRegion(dmesh)
         f1 = it.call(F, [dreg], dict(dim=1))
         it.setattr(f1, "values", symarray("Q", (dmesh.npoints, 1)))
@@ -173,9 +185,9 @@ def selected_points(mesh, spec):
     return out
 
 
-def run_partition(col, dim):
+def run_partition(col, dim, orphan="last"):
     it = new_interp()
-    fc, fields, mesh = make_container(it, dim, mixed=True)
+    fc, fields, mesh = make_container(it, dim, mixed=True, orphan=orphan)
     B = it.get("felupe.dof._boundary:Boundary")
     part = it.get("felupe.dof._tools:partition")
     appl = it.get("felupe.dof._tools:apply")
@@ -204,7 +216,7 @@ def run_partition(col, dim):
             order = sorted(dofs)
             for k, (p, i) in enumerate(order):
                 pres[off + d * p + i] = val(k, p, i, order)
-        missing = [dim * (mesh.npoints - 1) + i for i in range(dim)] + [n0 + mesh.npoints - 1]
+        missing = [dim * mesh.orphan + i for i in range(dim)] + [n0 + mesh.orphan]
         dof0 = sorted(set(pres) | set(missing))
         dof1 = [k for k in range(ntot) if k not in set(dof0)]
         ext0 = [pres.get(k, uflat[k]) for k in dof0]
@@ -219,6 +231,7 @@ def run_partition(col, dim):
         e0 = npmodel.to_obj(np.asarray(it.call(appl, [fc, bounds, np.array(d0, dtype=int)], {}))).reshape(-1)
         w0, w1, we = expected(bdefs)
         okk = d0 == w0 and d1 == w1 and sorted(d0 + d1) == list(range(ntot)) and not (set(d0) & set(d1))
+        label = label + ("" if orphan == "last" else " [cell-less point first]")
         col.add("C08.O3", "partition dim=%d %s" % (dim, label),
                 "dof0 == sorted union of the boundaries' unknowns (+ field offset) and the unknowns of points without cells; dof1 == sorted complement; disjoint and covering", okk,
                 "%s: dof0 %s expected %s" % (where, d0[:12], w0[:12]))
@@ -272,16 +285,16 @@ def run_partition(col, dim):
 
 
 # ------------------------------------------------------------------------------------------
-def run_loadcases(col, dim):
+def run_loadcases(col, dim, orphan="last"):
     it = new_interp()
-    fc, fields, mesh = make_container(it, dim, mixed=True)
+    fc, fields, mesh = make_container(it, dim, mixed=True, orphan=orphan)
     n0 = mesh.npoints * dim
     U = fields[0].attrs["values"]
     uflat = npmodel.to_obj(U).reshape(-1).tolist() + npmodel.to_obj(fields[1].attrs["values"]).reshape(-1).tolist()
     lo, hi = Fraction(0), Fraction(2)  # min / max coordinate (the point without cells sits at 2): used when left/right are not given
     count = 0
     mod = "felupe.dof._loadcase:"
-    miss = [dim * (mesh.npoints - 1) + i for i in range(dim)] + [n0 + mesh.npoints - 1]
+    miss = [dim * mesh.orphan + i for i in range(dim)] + [n0 + mesh.orphan]
 
     def face(ax, val):
         return [p for p, c in enumerate(mesh.coords) if c[ax] == val]
@@ -295,6 +308,7 @@ def run_loadcases(col, dim):
         w0 = sorted(set(pres) | set(miss))
         we = [pres.get(k, uflat[k]) for k in w0]
         okk = d0 == w0 and sorted(d0 + d1) == list(range(n0 + mesh.npoints)) and len(e0) == len(we) and all(is_zero(P(a) - P(b)) for a, b in zip(e0, we))
+        label = label + ("" if orphan == "last" else " [cell-less point first]")
         col.add("C08.O5", "%s dim=%d %s" % (fname, dim, label), "prescribed unknowns and values equal the load case's mechanics table; partition and prescribed values returned consistently", okk,
                 "dof/_loadcase.py %s: prescribed %s expected %s" % (fname, d0[:14], w0[:14]))
 
